@@ -75,6 +75,14 @@ def one_case(case):
             res["new"]["flexlen"] = len(getattr(p, case["flexlen"]))
     except Exception as e:
         res["new"] = dict(error=type(e).__name__)
+    # ---- the same initializer given by field name (sequence initializers fill the leading fields in order;
+    #      a union sequence sets the first member)
+    if case.get("named_init") is not None:
+        try:
+            p2 = ffi.new(newT, build(ffi, keep, case["named_init"]))
+            res["named"] = dict(bytes=bytes(ffi.buffer(p2)).hex())
+        except Exception as e:
+            res["named"] = dict(error=type(e).__name__)
     # ---- assignment form
     a = case.get("assign")
     if a:
@@ -102,7 +110,7 @@ def main(payload):
             out.append(one_case(case))
         except Exception as e:
             out.append(dict(harness_error="%s: %s" % (type(e).__name__, e)))
-        if payload.get("progress"):
+        if True:
             sys.stderr.write("done %d\n" % len(out))
             sys.stderr.flush()
     return dict(results=out)
